@@ -51,7 +51,7 @@ func qcStr(qc hotstuff.QuorumCert) string {
 
 func c12Roundtrip(p vbase.Params, r *vbase.Result) {
 	r.Rule = "protocol objects produced by real signers (3 schemes, n in {1,4,7}, 1..n signers) -> XToProto -> proto.Marshal -> proto.Unmarshal -> XFromProto; compared: Hash(), ToBytes() (bytes-to-sign), " +
-		"ordered participants, Signer(), views, and the verdict of the real Verify* at another replica before vs after; objects: blocks (nil/empty/non-empty batches, extreme views/ids/timestamps), " +
+		"ordered participants, Signer(), views, and the verdict of the real Verify* at another replica before vs after; objects: blocks (nil/empty/non-empty batches, extreme views/ids/timestamps incl. years outside 1..9999; the same wire bytes decoded twice, with and without the timestamp field), " +
 		"partial certs, QCs (incl. signature-free), TCs, AggQCs (0..n entries), SyncInfos (every subset of QC/TC/AggQC), timeout messages with/without message signature, proposals with/without AggQC, " +
 		"plus structurally mutated (invalid) certificates whose verdict must stay invalid; non-trivial: object with an optional part present or an extreme value; distinct: shape vector"
 	cases := p.N(4000, 300000)
@@ -99,7 +99,19 @@ func c12Roundtrip(p vbase.Params, r *vbase.Result) {
 				extreme = "view/id"
 			}
 			blk := hotstuff.NewBlock(parent.Hash(), parentQC, batch, view, proposer)
-			switch rng.Intn(7) {
+			switch rng.Intn(11) {
+			case 7:
+				blk.SetTimestamp(time.Date(10000, 1, 1, 0, 0, 0, 5, time.UTC))
+				extreme += " year-10000"
+			case 8:
+				blk.SetTimestamp(time.Unix(1<<55, 77))
+				extreme += " far-future"
+			case 9:
+				blk.SetTimestamp(time.Date(0, 12, 31, 23, 59, 59, 999999999, time.UTC))
+				extreme += " before-year-1"
+			case 10:
+				blk.SetTimestamp(time.Unix(-(1 << 55), 3))
+				extreme += " far-past"
 			case 0:
 				blk.SetTimestamp(time.Time{})
 				extreme += " zero-time"
@@ -147,6 +159,31 @@ func c12Roundtrip(p vbase.Params, r *vbase.Result) {
 			} else if back.Parent() != blk.Parent() || back.View() != blk.View() || back.Proposer() != blk.Proposer() || qcStr(back.QuorumCert()) != qcStr(blk.QuorumCert()) ||
 				!proto.Equal(normBatch(back.Commands()), normBatch(blk.Commands())) {
 				fail("block", "fields", "decoded block differs in parent/view/proposer/QC/batch")
+			}
+			// the wire form determines the block: the same bytes decoded twice (two receivers) name one block, also when
+			// a sender left the timestamp out
+			for _, strip := range []bool{false, true} {
+				wpb := hotstuffpb.BlockToProto(blk)
+				if strip {
+					wpb.Timestamp = nil
+				}
+				raw, err := proto.Marshal(wpb)
+				if err != nil {
+					panic(err)
+				}
+				var d1, d2 hotstuffpb.Block
+				if proto.Unmarshal(raw, &d1) != nil || proto.Unmarshal(raw, &d2) != nil {
+					panic("unmarshal of marshalled block failed")
+				}
+				b1 := hotstuffpb.BlockFromProto(&d1)
+				for spin := 0; spin < 50; spin++ {
+					_ = time.Now() // let the clock move between the two receivers
+				}
+				b2 := hotstuffpb.BlockFromProto(&d2)
+				r.Obs("wire_decoded_twice", 1)
+				if b1.Hash() != b2.Hash() || !bytes.Equal(b1.ToBytes(), b2.ToBytes()) {
+					fail("block", "decode-deterministic", fmt.Sprintf("the same wire bytes (timestamp stripped: %v, ts %v) decoded twice give two different blocks", strip, blk.Timestamp()))
+				}
 			}
 			if view >= 1<<32 {
 				// an extreme-view block ends the chain (no higher view possible)
